@@ -425,3 +425,36 @@ pub fn upgraded_entry<S: Src>(s: &mut S) -> Outcome {
         detail: bad.unwrap_or_default(),
     }
 }
+
+/// witness of the MIR instance (smt/c01_mir.py): vals = [entered upgraded, (read kind 0 message / 1 partial / 2 eof / 3 io error,
+/// parses, has dot, upgrades, implementation fails) ...]; rendered as a real stream and judged by the same native rules as the Kani scenarios
+pub fn mir_script(vals: &[u8]) -> Outcome {
+    let g = |i: usize| *vals.get(i).unwrap_or(&0);
+    if g(0) == 1 {
+        return Outcome { reproduced: false, role: String::new(), scenario: String::new(), detail: "entry in upgraded mode is replayed by c02_upgraded_entry".into() };
+    }
+    let mut sc = C01 { k: 0, msgs: [Msg::blank(); KMAX] };
+    let mut tail: &[u8] = b"";
+    let mut i = 1;
+    while i + 4 < vals.len() + 1 && sc.k < KMAX {
+        match g(i) {
+            0 => {
+                let mut m = Msg::blank();
+                m.parse_ok = g(i + 1) == 1;
+                m.target = if g(i + 2) == 1 { T_DISPATCH } else { T_NODOT };
+                m.nreplies = 1;
+                m.outcome = if g(i + 4) == 1 { O_ERR } else if g(i + 3) == 1 { O_UPGRADE } else { O_OK };
+                sc.msgs[sc.k] = m;
+                sc.k += 1;
+            }
+            1 => {
+                // an incomplete message that would parse if it were (wrongly) looked at
+                tail = br#"{"method":"a.b.M"}"#;
+                break;
+            }
+            _ => break,
+        }
+        i += 5;
+    }
+    run_stream(&sc, tail, 0, "{")
+}
